@@ -551,7 +551,57 @@ func smallMsg(rng *rand.Rand) *RMsg {
 	}
 }
 
+// sharedInputs: one received packet (a byte slice nobody writes to) decoded by several goroutines
+// at once: decoding reads its input. (Encoding is not the mirror case: Message.Encode stores the
+// section counts in the message, so one message is not encoded by two goroutines at once.)
+func sharedInputs() {
+	const G = 8
+	rng := r.Rand("shared-inputs")
+	for run := 0; run < r.Pick(80, 800); run++ {
+		m := smallMsg(rng)
+		comp, encs := m.Pack(Comp{On: true, Prob: 1})
+		pristine := append([]byte(nil), comp...)
+		var wg sync.WaitGroup
+		start := make(chan struct{})
+		for g := 0; g < G; g++ {
+			wg.Add(1)
+			go func(g int) {
+				defer wg.Done()
+				<-start
+				for i := 0; i < 4; i++ {
+					var dm *llmnr.Message
+					var err error
+					p, v, st := mon.Guard(func() { dm, err = llmnr.DecodeMessage(comp) })
+					switch {
+					case p:
+						r.Violation("DecodeMessage:shared-input:panic:"+mon.PanicClass(v), fmt.Sprintf("panic %v at %s (8 goroutines decoding one packet)", v, mon.TopLibFrame(st)), msgCase(m, pristine, nil))
+					case err != nil:
+						r.Violation("DecodeMessage:shared-input", fmt.Sprintf("8 goroutines decoding the same packet: DecodeMessage fails: %v", err), msgCase(m, pristine, nil))
+					default:
+						if k, d := diffLib(m, dm, encs); k != "" {
+							r.Violation("DecodeMessage:shared-input", "8 goroutines decoding the same packet: the result differs: "+k+" "+d, msgCase(m, pristine, nil))
+						}
+					}
+					if len(m.Q) > 0 {
+						if name, _, nerr := llmnr.DecodeDomainName(comp, 12); nerr != nil || !sameNameText(name, m.Q[0].Name) {
+							r.Violation("DecodeDomainName:shared-input", fmt.Sprintf("8 goroutines decoding the same packet: first name reads %q (err=%v)", name, nerr), msgCase(m, pristine, nil))
+						}
+					}
+				}
+			}(g)
+		}
+		close(start)
+		wg.Wait()
+		r.Eval(G * 4 * 2)
+		if !bytes.Equal(comp, pristine) {
+			r.Violation("DecodeMessage:shared-input:input-modified", "the packet handed to the decoders was written to", msgCase(m, pristine, nil))
+		}
+		r.Nontrivial(fmt.Sprintf("shared-input|%d", run%40))
+	}
+}
+
 func concurrent() {
+	sharedInputs()
 	const G = 8
 	per := r.Pick(60, 400)
 	rounds := r.Pick(6, 20)
